@@ -4,7 +4,7 @@
  "file": "attr.c", "function": "attrspec", "also_functions": ["parseattr"],
  "properties": {"C10": "contract"},
  "mode": "harness",
- "unwind": 12,
+ "unwind": 12, "unwindset": ["attrspec.0:5", "parseattr.0:7", "harness.0:4"],
  "cflags": ["-DV_N=2", "-DV_SYNTAX"],
  "kind": "bounded",
  "bound": "`[[ e0 e1 ]] ;` with e0, e1 as in ATTR.attrspec, restricted to the two ill-formed classes: (a) two attributes not separated by a comma (`[[foo foo]]`, `[[gnu::packed foo(1)]]`), (b) an argument clause that is not a balanced-token-sequence: `foo({])`, `foo(])`, `foo([)])`",
